@@ -284,12 +284,44 @@ func (g *gen) sq() string {
 	return "'" + g.pick("", "a", "a b", "it''s", "x\ny", "é", "$x", "}", "\\") + "'"
 }
 
+// Escape returns one double-quote escape sequence with a value drawn from the
+// whole range of its form (valid for the parser: every \x, \u, \U value, octal
+// up to \377, control characters \c? and \^? with ? in 0x3F..0x5F).
+func Escape(r *rand.Rand) string {
+	hex := func(n int, v uint32) string { return fmt.Sprintf("%0*X", n, v) }
+	switch r.Intn(9) {
+	case 0:
+		return `\x` + hex(2, uint32(r.Intn(256)))
+	case 1:
+		return `\u` + hex(4, uint32(r.Intn(0x10000)))
+	case 2: // any value, incl. the planes whose proper hex prefixes are surrogates
+		return `\U` + hex(8, uint32(r.Intn(0x110000)))
+	case 3: // U+D8000..U+DFFFF: the first 7 digits read as a surrogate
+		return `\U` + hex(8, 0xD8000+uint32(r.Intn(0x8000)))
+	case 4: // boundary values
+		return []string{`\U0010FFFF`, `\U000D8000`, `\U000DFFFF`, `\U000D7FF0`, `\U000E0000`, `\uD7FF`, `\uE000`,
+			`\uFFFF`, `\u0000`, `\U00000000`, `\xFF`, `\x00`, `\x7f`, `\udabc`, `\U000dbcde`}[r.Intn(15)]
+	case 5:
+		return fmt.Sprintf(`\%03o`, r.Intn(256))
+	case 6:
+		return `\c` + string(rune(0x3F+r.Intn(0x21)))
+	case 7:
+		return `\^` + string(rune(0x3F+r.Intn(0x21)))
+	default:
+		return []string{`\n`, `\t`, `\\`, `\"`, `\e`, `\a`, `\b`, `\f`, `\r`, `\v`}[r.Intn(10)]
+	}
+}
+
 func (g *gen) dq() string {
 	var sb strings.Builder
 	sb.WriteByte('"')
 	for i := g.r.Intn(4); i > 0; i-- {
-		sb.WriteString(g.pick("a", " ", "\\n", "\\t", "\\\\", "\\\"", "\\e", "\\x41", "\\u00e9", "\\U0001F600", "\\101", "\\c@", "\\^?",
-			"\\^[", "é", "'", "$x", "{"))
+		if g.r.Intn(2) == 0 {
+			sb.WriteString(Escape(g.r))
+			continue
+		}
+		sb.WriteString(g.pick("a", " ", `\n`, `\t`, `\\`, `\"`, `\e`, `\x41`, `\u00e9`, `\U0001F600`, `\101`, `\c@`, `\^?`,
+			`\^[`, "é", "'", "$x", "{"))
 	}
 	sb.WriteByte('"')
 	return sb.String()
